@@ -482,16 +482,25 @@ struct Driver {
                 post(w, "insert-aliased");
             }
             else if (how < 7) {
-                trace.push_back("insert(" + show(v) + ")");
+                // maps: half of the time through insert2(key, data)
+                bool two = false;
+                if constexpr (is_map) two = rng.coin();
+                trace.push_back(std::string(two ? "insert2(" : "insert(") + show(v) + ")");
                 if constexpr (!is_multi) {
-                    auto rt = t.insert(v);
+                    auto do_insert = [&]() {
+                        if constexpr (is_map) { if (two) return t.insert2(v.first, v.second); }
+                        return t.insert(v);
+                    };
+                    auto rt = do_insert();
                     auto rm = m.insert(v);
                     if (rt.second != rm.second) diff("insert.second", show(v));
                     if (!same(*rt.first, V(*rm.first))) diff("insert.first", show(v) + " -> tlx " + show(*rt.first) + " std " + show(V(*rm.first)));
                     same_pos(t, m, rt.first, rm.first, "insert-position");
                 }
                 else {
-                    auto it = t.insert(v);
+                    auto it = t.end();
+                    if constexpr (is_map) { if (two) it = t.insert2(v.first, v.second); else it = t.insert(v); }
+                    else it = t.insert(v);
                     m.insert(v);
                     if (!same(*it, v)) diff("insert-result", show(v) + " -> " + show(*it));
                     in_run(t, m, it, key_of(v), "insert-position");
@@ -511,7 +520,9 @@ struct Driver {
                 case 4: case 5: hint_t = t.lower_bound(key_of(v)); if (hint_t != t.begin()) --hint_t; break;
                 default: { size_t steps = t.size() ? rng.below(t.size() + 1) : 0; if (steps > 40) steps = 40 + steps % 7; for (size_t q = 0; q < steps && hint_t != t.end(); ++q) ++hint_t; break; }
                 }
-                auto it = t.insert(hint_t, v);
+                auto it = t.end();
+                if constexpr (is_map) { if (rng.coin()) { trace.back() += " as insert2(hint, key, data)"; it = t.insert2(hint_t, v.first, v.second); } else it = t.insert(hint_t, v); }
+                else it = t.insert(hint_t, v);
                 if constexpr (!is_multi) {
                     auto rm = m.insert(v);
                     if (!same(*it, V(*rm.first))) diff("insert(hint)", show(v));
